@@ -149,8 +149,9 @@ theorem hT_arm (s : Stack) (ttl : Nat) (a a' : Addr) (k k' : SvcKey) :
       rw [if_neg h]
       simp [List.filter_cons, this]
   · rw [if_neg hf, if_neg hf]
+    simp only []
     split
-    · rename_i h; rw [h.1, h.2]; simp
+    · rename_i h; rw [h.1, h.2]; simp [hT]
     · rfl
 
 theorem hR_arm (s : Stack) (ttl : Nat) (cb : Cb) (a' : Addr) (k' : SvcKey) : hR (s.armTtl ttl cb).1 a' k' = hR s a' k' := by
